@@ -10,13 +10,17 @@ META = {
             "(association list in slot order: append on insert, swap-with-last on delete — the order of mapImp.nodes) agrees with the mathematical "
             "finite map K -> Option V on lookups / comma-ok, its length is the number of present keys, a range visits each present key exactly once "
             "with its current value. Proved about the executable transcription of waroot/src/runtime/map.wa (pointer store, red-black tree + slot "
-            "array): search is correct on every store that represents a BST, rotations preserve the in-order sequence, the linking step of insert "
-            "yields the BST insertion, Delete's slot bookkeeping refines the spec's delete; the full refinement statement for delete is proved FALSE of "
-            "the pinned code on a concrete witness (two-child node) which the check replays on the real runtime. What ties the real runtime to the "
+            "array): search/Lookup is correct on every store that represents a BST; a rotation at ANY node preserves a whole-tree invariant (representation, "
+            "distinct nodes, parent indices, slot indices) and the in-order sequence, hence so do both fix-up loops insertFixup and deleteFixup for any fuel; "
+            "the allocation + descent + linking step of insert yields the BST insertion; Delete's slot bookkeeping refines the spec's swap-with-last delete for every "
+            "tree shape; for a node with at most one child the unlinking step of delete removes exactly that key (lookups = finite-map delete); the full "
+            "refinement statement for delete is proved FALSE of the pinned code on a concrete witness (two-child node) which the check replays on the real runtime. What ties the real runtime to the "
             "models is a correspondence run: generated single-source programs (long random histories for int, int64, uint32, uint8, string, float64, "
             "bool, struct, pointer and interface keys) run under Wa, under Go's native map and through the Lean transcription (exact iteration order), "
-            "with the property itself evaluated on Wa's output against a Python dict. Rebalancing (insertFixup/deleteFixup) is not proved: its "
-            "invariants are MONITORED (decidable predicate evaluated by the model driver after every operation of every generated history).",
+            "with the property itself evaluated on Wa's output against a Python dict. NOT proved: red-black colour/black-height balance, and the end-to-end "
+            "composition update/delete = spec step on the store level (the pieces above are proved separately); these are MONITORED: a decidable predicate "
+            "(BST order, parent/child and slot consistency, colours, black height, slot list = spec state) is evaluated by the model driver after every "
+            "operation of every generated history.",
     "note": "Trusted: Lean kernel; the hand transcription Model/C13RB.lean (tied to map.wa only by the correspondence run, which is differential "
             "testing, not proof); the mapping of Wa keys to ranks under runtime.Compare computed in checks/c13.py (validated by the exact-order "
             "comparison); Go's native map and the Python dict as oracles. Modelled-not-verified: the compiler side (value_map.go boxing of keys and "
@@ -25,7 +29,8 @@ META = {
 }
 REQUIRED = ["lookup_agrees", "len_eq_card", "range_visits_each_once", "keys_nodup",
             "search_correct_of_BST", "rotate_preserves_inorder", "rotate_right_preserves_inorder", "insert_path_refines_spec",
-            "delete_slots_refine", "delete_refines_spec_false", "witness_pinned_behaviour", "witness_fixed_behaviour"]
+            "rotation_anywhere_preserves_invariant", "insertFixup_preserves_inorder", "deleteFixup_preserves_inorder",
+            "delete_slots_refine", "delete_refines_spec_partial", "delete_refines_spec_false", "witness_pinned_behaviour", "witness_fixed_behaviour"]
 
 HEX = "0123456789abcdef"
 VS = ["v%d" % i if i % 3 else "w" * (i % 7 + 1) + str(i) for i in range(61)]     # string values (all non-empty)
@@ -759,10 +764,10 @@ def run(ctx):
             if not quick:
                 n = min(n * 2, 1500) if name not in ("bool", "uint8") else n
             kind = make_kind(name, rng, n)
-            la = (1200 if quick else 6000) if name != "bool" else 300
+            la = (900 if quick else 6000) if name != "bool" else 300
             styles = ["churn", "asc", "desc", "drain"]
             ha = [gen_history(rng, kind, la, styles[(i + rd) % 4]) for i in range(3)]
-            nb = (10 if quick else 40) if name != "bool" else 4
+            nb = (8 if quick else 40) if name != "bool" else 4
             hb = [gen_history(rng, kind, rng.choice([40, 120, 300]), rng.choice(styles)) for _ in range(nb)]
             progs.append(Prog("%s-%d" % (name, rd), kind, ha + hb, "A" * len(ha) + "B" * len(hb)))
     for k in probe_kinds():
